@@ -4,6 +4,7 @@ package c19
 
 import (
 	"context"
+	"sort"
 	"crypto/md5"
 	"crypto/sha256"
 	"encoding/hex"
@@ -162,6 +163,7 @@ func matrix(rng *rand.Rand, accounts map[string]string, kind string, n int, ws b
 	for u := range accounts {
 		users = append(users, u)
 	}
+	sort.Strings(users) // map order must not influence the seeded case list
 	var out []Attempt
 	for i := 0; i < n; i++ {
 		at := Attempt{V: []byte{3, 4, 5, 5}[rng.Intn(4)], HasUser: rng.Intn(8) != 0, HasPass: rng.Intn(8) != 0, Will: rng.Intn(3) == 0, Clean: rng.Intn(2) == 0, WS: ws && rng.Intn(4) == 0}
@@ -205,8 +207,10 @@ func matrix(rng *rand.Rand, accounts map[string]string, kind string, n int, ws b
 	return out
 }
 
-// expected verdict from the model.
-func expected(accounts map[string]string, at Attempt) bool {
+// expected verdict from the model: the user exists and the presented password verifies against the
+// stored hash under the configured algorithm (computed independently). For bcrypt that is the
+// algorithm's own relation: its key is NUL-terminated, so e.g. "" and "\x00" verify against the same hash.
+func expected(accounts map[string]string, kind string, at Attempt) bool {
 	if !at.HasUser {
 		return false
 	}
@@ -218,11 +222,14 @@ func expected(accounts map[string]string, at Attempt) bool {
 	if at.HasPass {
 		got = at.Pass
 	}
-	return got == pw
+	if kind == auth.Bcrypt {
+		return bcrypt.CompareHashAndPassword([]byte(hashOf(kind, pw)), []byte(got)) == nil
+	}
+	return hashOf(kind, got) == hashOf(kind, pw)
 }
 
 func checkAttempt(r *monitor.Run, b *broker.Broker, accounts map[string]string, kind string, at Attempt, id string, ctx string) {
-	want := expected(accounts, at)
+	want := expected(accounts, kind, at)
 	got, err := tryConnect(b, at, id)
 	r.Eval(1)
 	if err != nil {
